@@ -492,9 +492,16 @@ def per_axis_interpolator(f, coord_vecs, interp):
     def per_axis_interp(x, out=None):
         """Interpolating function with vectorization."""
         x, x_type, x_is_scalar = _check_interp_input(x, f)
-        interpolator = _PerAxisInterpolator(
-            coord_vecs, f, interp=interp, input_type=x_type
-        )
+        if all(s == 'nearest' for s in interp):
+            # No arithmetic on the values needed, hence this also works for
+            # non-floating-point data (e.g. integer labels)
+            interpolator = _NearestInterpolator(
+                coord_vecs, f, input_type=x_type
+            )
+        else:
+            interpolator = _PerAxisInterpolator(
+                coord_vecs, f, interp=interp, input_type=x_type
+            )
 
         res = interpolator(x, out=out)
         if x_is_scalar:
